@@ -1,6 +1,8 @@
 import Pike.Lemmas.Resp
 import Pike.Lemmas.Tokens
 import Pike.Lemmas.Codec
+import Pike.Spec.Skeleton
+import Pike.Facts
 /-
 C05 — bodies, status and headers are delivered unaltered for every encoding mix.
 `k : Codecs` is the bundle of compression libraries, assumed to satisfy `CodecsOK`
@@ -9,6 +11,13 @@ C05 — bodies, status and headers are delivered unaltered for every encoding mi
 namespace Pike
 namespace C05
 open Resp Str
+
+/-- Obligation on the regenerated statement skeletons of `GetRawBody`, `Compress` and `Fill`: they are what `Resp.rawBody`, `Resp.compressStore` and `Resp.fill` transcribe (identity body from the gzip, else br variant; both variants made and the raw body dropped when stored; headers merged, then Content-Encoding set). -/
+theorem skeleton_transcribed :
+    Facts.skel_HTTPResponse_GetRawBody = Spec.Skeleton.HTTPResponse_GetRawBody
+    ∧ Facts.skel_HTTPResponse_Compress = Spec.Skeleton.HTTPResponse_Compress
+    ∧ Facts.skel_HTTPResponse_Fill = Spec.Skeleton.HTTPResponse_Fill := by
+  refine ⟨?_, ?_, ?_⟩ <;> rfl
 
 /-- the documented content codings a client may list -/
 def alphabet : List Str :=
